@@ -576,6 +576,32 @@ fn convert_sweep(ctx: &mut Ctx) {
     }
 }
 
+/// a list with more than 65 536 distinct vertex names (32 770 lines, no reversed duplicate):
+/// `--convert -u` must reproduce it line for line
+fn convert_many_vertices(ctx: &mut Ctx) {
+    if ctx.shard != 5 % ctx.nshards {
+        return;
+    }
+    let case = json!({"part": "many-vertices"});
+    ctx.begin_case(|| case.clone());
+    ctx.count("evaluations", 1);
+    ctx.count("many_vertex_lists", 1);
+    let mut lines: Vec<String> = vec!["c,a0".to_string()];
+    lines.extend((0..32768).map(|i| format!("p{i},q{i}")));
+    lines.push("a0,p32767".to_string());
+    let csv = lines.join("\n") + "\n";
+    let f = scratch_file("many.csv", csv.as_bytes());
+    let r = run_bin("random_graph_gen", &["--convert".to_string(), f.display().to_string(), "-u".to_string()], None, &[]);
+    let key = format!("{TAG} --convert -u of 32 770 lines over 65 538 vertices");
+    if !r.ok() {
+        ctx.violation(key, format!("failed: {} {}", r.describe(), r.err_tail()), case);
+    } else if r.out().lines().map(|l| l.trim().to_string()).filter(|l| !l.is_empty()).collect::<Vec<_>>() != lines {
+        let got: Vec<String> = r.out().lines().map(|l| l.trim().to_string()).filter(|l| !l.is_empty()).collect();
+        let first = lines.iter().zip(got.iter().chain(std::iter::repeat(&String::new()))).position(|(a, b)| a != b);
+        ctx.violation(key, format!("{} lines printed for {} lines given (no line is a reversed duplicate); first difference at line {:?}", got.len(), lines.len(), first.map(|i| i + 1)), case);
+    }
+}
+
 /// larger inputs for --convert / --colors: five vertices (incl. two-digit names), more
 /// colours, longer edge lists
 fn convert_sweep_large(ctx: &mut Ctx) {
@@ -697,6 +723,7 @@ fn run(ctx: &mut Ctx) {
     convert_output_sweep(ctx);
     convert_sweep(ctx);
     convert_sweep_large(ctx);
+    convert_many_vertices(ctx);
     unscripted_supplement(ctx);
     crate::cli::cleanup_scratch();
 }
@@ -705,6 +732,13 @@ fn replay(ctx: &mut Ctx, c: &Value) {
     let edges = || -> Vec<(String, String)> { c["edges"].as_array().map(|a| a.iter().map(|e| (e[0].as_str().unwrap_or("").to_string(), e[1].as_str().unwrap_or("").to_string())).collect()).unwrap_or_default() };
     match c["part"].as_str() {
         Some("complete") => complete_sweep(ctx),
+        Some("many-vertices") => {
+            let mut c2 = Ctx::new("C18", ctx.tier, ctx.seed, 5, 16);
+            convert_many_vertices(&mut c2);
+            for v in c2.violations {
+                ctx.violation(v.key, v.what, v.replay);
+            }
+        }
         Some("convert-outfile") => {
             let mut c2 = Ctx::new("C18", ctx.tier, ctx.seed, 0, 1);
             convert_output_sweep(&mut c2);
